@@ -33,8 +33,11 @@ def relations(kind: str, ind, snap: List[Dict]) -> Optional[Dict]:
         if kind == "RSI" and not (0 <= r <= 100):
             return {"relation": "range", "field": ""}
         if kind == "STOCH":
+            # k and d are incrementally updated averages stored with 4 decimals: like SMA, one
+            # rounding per candle accumulates (d averages k, so it inherits k's drift and adds its own)
+            acc = {"stoch": 0.0, "k": (i + 1) * 0.5e-4, "d": 2 * (i + 1) * 0.5e-4}
             for f in ("stoch", "k", "d"):
-                if r[f] is not None and not (-sl <= r[f] <= 100 + sl):
+                if r[f] is not None and not (-sl - acc[f] <= r[f] <= 100 + sl + acc[f]):
                     return {"relation": "range", "field": f}
         if kind == "AROON" and r["AROONU"] is not None:
             if not (0 <= r["AROONU"] <= 100 and 0 <= r["AROOND"] <= 100):
